@@ -151,3 +151,109 @@ pub fn check_value_kinds(rep: &mut Report) {
 		}
 	}
 }
+
+/// the accessor layer (JsonAccess.tla): every small value with the answers of kind / is_* / as_* / into_* / force_as_array /
+/// take / From and of the fragment predicates.  kind and is_kind belong to C20, the rest goes beyond the listed properties.
+pub fn replay_access(rep: &mut Report, rec: &J) {
+	use crate::proj::{build, cps, project};
+	rep.count("access_vectors");
+	let v = match build(&rec["v"]) {
+		Ok(v) => v,
+		Err(e) => tool_error(&format!("access vector: {e}")),
+	};
+	let acc = &rec["acc"];
+	let opt = |x: Option<J>| match x {
+		Some(val) => json!({"some": true, "val": val}),
+		None => json!({"some": false}),
+	};
+	let r = guarded(|| {
+		// C20: kind / is_kind
+		let kind = kind_no(v.kind());
+		let is_kind: Vec<bool> = KINDS.iter().map(|k| v.is_kind(*k)).collect();
+		let is = vec![v.is_null(), v.is_boolean(), v.is_number(), v.is_string(), v.is_array(), v.is_object()];
+		let entries_j = |o: &json_syntax::Object| J::Array(o.iter().map(|e| json!({"k": cps(e.key.as_str()), "v": project(&e.value)})).collect());
+		let items_j = |a: &[Value]| J::Array(a.iter().map(project).collect());
+		// by reference
+		let by_ref = json!({"kind": kind, "is": is, "empty": v.is_empty_array_or_object(),
+			"bool": opt(v.as_boolean().map(|b| json!(b))), "num": opt(v.as_number().map(|n| cps(n.as_str()))),
+			"str": opt(v.as_string().map(cps)), "arr": opt(v.as_array().map(items_j)), "obj": opt(v.as_object().map(entries_j)),
+			"force": items_j(v.force_as_array())});
+		// by mutable reference and by value, and as_str
+		let mut m = v.clone();
+		let by_mut = json!({"bool": opt(m.as_boolean_mut().map(|b| json!(*b))), "num": opt(m.clone().as_number_mut().map(|n| cps(n.as_str()))),
+			"str": opt(m.clone().as_string_mut().map(|s| cps(s.as_str()))), "arr": opt(m.clone().as_array_mut().map(|a| items_j(a))),
+			"obj": opt(m.clone().as_object_mut().map(|o| entries_j(o)))});
+		let by_val = json!({"bool": opt(v.clone().into_boolean().map(|b| json!(b))), "num": opt(v.clone().into_number().map(|n| cps(n.as_str()))),
+			"str": opt(v.clone().into_string().map(|s| cps(s.as_str()))), "arr": opt(v.clone().into_array().map(|a| items_j(&a))),
+			"obj": opt(v.clone().into_object().map(|o| entries_j(&o)))});
+		let as_str = opt(v.as_str().map(cps));
+		let taken = m.take();
+		let take = json!([project(&taken), project(&m)]);
+		// From<payload> rebuilds the value
+		let rebuilt = match &v {
+			Value::Null => Value::Null,
+			Value::Boolean(b) => Value::from(*b),
+			Value::Number(n) => if n.as_str().len() % 2 == 0 { Value::from(n.clone()) } else { Value::from(n.as_number()) },
+			Value::String(s) => match s.len() % 3 { 0 => Value::from(s.clone()), 1 => Value::from(s.as_str()), _ => Value::from(s.to_string()) },
+			Value::Array(a) => Value::from(a.clone()),
+			Value::Object(o) => Value::from(o.clone()),
+		};
+		// fragments
+		let frags: Vec<J> = v.traverse().map(|(_, f)| {
+			let flags = vec![f.is_entry(), f.is_key(), f.is_value(), f.is_null(), f.is_number(), f.is_string(), f.is_array(), f.is_object()];
+			let s = f.strip();
+			let flags2 = vec![s.is_entry(), s.is_key(), s.is_value(), s.is_null(), s.is_number(), s.is_string(), s.is_array(), s.is_object()];
+			json!({"flags": flags, "arity": f.sub_fragments().count(), "strip_same": flags == flags2})
+		}).collect();
+		// entry accessors on every entry of every object
+		let mut entry_ok = true;
+		for (_, f) in v.traverse() {
+			if let json_syntax::FragmentRef::Entry(e) = f {
+				let (k, val) = e.as_pair();
+				let r = e.as_ref();
+				entry_ok &= e.as_key() == &e.key && e.as_value() == &e.value && k == &e.key && val == &e.value && *r.as_key() == &e.key && *r.as_value() == &e.value;
+				let (k2, v2) = e.clone().into_pair();
+				entry_ok &= k2 == e.key && v2 == e.value && e.clone().into_key() == e.key && e.clone().into_value() == e.value;
+				entry_ok &= json_syntax::object::Entry::new(e.key.clone(), e.value.clone()) == *e;
+			}
+		}
+		(kind, is_kind, by_ref, by_mut, by_val, as_str, take, rebuilt == v, frags, entry_ok)
+	});
+	let (kind, is_kind, by_ref, by_mut, by_val, as_str, take, rebuilt_ok, frags, entry_ok) = match r {
+		Ok(x) => x,
+		Err(p) => {
+			rep.mismatch("X.access.panic", json!({"what": "an accessor panicked", "vector": rec, "panic": p}));
+			return;
+		}
+	};
+	rep.add("access_calls", 40);
+	// C20
+	let exp_is: Vec<bool> = acc["is"].as_array().unwrap().iter().map(|b| b.as_bool().unwrap()).collect();
+	if json!(kind) != acc["kind"] || is_kind != exp_is {
+		rep.mismatch("C20.value_kind", json!({"what": "kind / is_kind reported for a value does not match its variant", "vector": rec["v"], "kind": kind, "is_kind": is_kind}));
+	}
+	let exp_ref = json!({"kind": acc["kind"], "is": acc["is"], "empty": acc["empty"], "bool": acc["bool"], "num": acc["num"], "str": acc["str"], "arr": acc["arr"], "obj": acc["obj"], "force": acc["force"]});
+	if by_ref != exp_ref {
+		rep.mismatch("X.access.ref", json!({"what": "is_* / as_* / force_as_array differ from JsonAccess", "vector": rec["v"], "observed": by_ref, "expected": exp_ref}));
+	}
+	let exp_payload = json!({"bool": acc["bool"], "num": acc["num"], "str": acc["str"], "arr": acc["arr"], "obj": acc["obj"]});
+	if by_mut != exp_payload || by_val != exp_payload || as_str != acc["str"] {
+		rep.mismatch("X.access.payload", json!({"what": "as_*_mut / into_* / as_str differ from JsonAccess", "vector": rec["v"], "by_mut": by_mut, "by_val": by_val, "as_str": as_str}));
+	}
+	if take != acc["take"] {
+		rep.mismatch("X.access.take", json!({"what": "take() does not return the value and leave null", "vector": rec["v"], "observed": take}));
+	}
+	if !rebuilt_ok {
+		rep.mismatch("X.access.from", json!({"what": "From<payload> does not rebuild the value", "vector": rec["v"]}));
+	}
+	let exp_frags: Vec<J> = rec["frags"].as_array().unwrap().iter().map(|f| json!({"flags": f["flags"], "arity": f["arity"], "strip_same": true})).collect();
+	if frags != exp_frags {
+		rep.mismatch("X.access.fragments", json!({"what": "fragment predicates / arity / strip differ from JsonAccess", "vector": rec["v"], "observed": frags}));
+	}
+	if !entry_ok {
+		rep.mismatch("X.access.entry", json!({"what": "Entry accessors disagree with the entry's fields", "vector": rec["v"]}));
+	}
+	rep.note_distinct(hash_of(&rec["v"].to_string()));
+	let n = rep.counters["access_vectors"];
+	rep.sample(4001, n, || json!({"value": rec["v"], "access": rec["acc"]}));
+}
